@@ -119,12 +119,27 @@ def run(ctx):
         ins = [c for c in d.calls if c.name == "insert" and "nodes" in describe_operand(d, c.args[0])]
         snd = [c for c in d.calls if c.name == "send"]
         ok, wit = d.must_pass([0], {c.block for c in ins})
-        r.check(ok and len(ins) >= 2, "Drop/entry-reinserted-on-every-path", where(d), "every path of Drop puts an entry for the agent back into the plane (%d insert sites)" % len(ins), "Drop can return without returning the state: %s" % wit)
+        r.check(ok and len(ins) >= 1, "Drop/entry-reinserted-on-every-path", where(d), "every path of Drop puts an entry for the agent back into the plane (%d insert sites)" % len(ins), "Drop can return without returning the state: %s" % wit)
         idle = [a for a in aggregates(d, "in_memory_store::NodeEntry", "Idle")]
-        r.check(len(idle) >= 2 and all("state" in describe_operand(d, a[2][0]) or "send(" in describe_operand(d, a[2][0]) or "Err" in describe_operand(d, a[2][0]) for a in idle), "Drop/Idle-carries-state", where(d), "NodeEntry::Idle holds the agent's state")
+        r.check(len(idle) >= 1 and all("state" in describe_operand(d, a[2][0]) or "send(" in describe_operand(d, a[2][0]) or "Err" in describe_operand(d, a[2][0]) for a in idle), "Drop/Idle-carries-state", where(d), "NodeEntry::Idle holds the agent's state")
         r.check(len(snd) == 1 and any(l == "Some" or "InUse" in l for dd, l, _ in dom_guards(d, snd[0].block)), "Drop/waiter-gets-state", where(d), "a waiting starter receives the state")
         tk = [c for c in d.calls if c.name == "take" and "state" in describe_operand(d, c.args[0])]
         r.check(len(tk) >= 1, "Drop/state-moved-out", where(d), "the state is moved out of the handle (mem::take)")
+        # the state exists once: taking it out of the handle twice on one path yields the real state first and an empty default second
+        twice = [(a, b_) for a in tk for b_ in tk if a is not b_ and d.reaches(a.block, {b_.block})]
+        r.check(not twice, "Drop/state-taken-once-per-path", tk[0].loc() if tk else where(d), "the state is taken out of the handle at most once on any path",
+                "a path takes the state out of the handle twice (lines %s): the second take is an empty default state - whatever is stored from it has lost the agent's values, maps and name table" % sorted({(a.line, b_.line) for a, b_ in twice})[:2])
+        # a hand-off that fails (the waiting starter has gone) gives the state back in the error: that is what must be parked as Idle
+        if len(snd) == 1:
+            fail_idle = []
+            for a in idle:
+                g = dom_guards(d, a[0])
+                failed = any(("send(" in dd and (l in ("Err", "false"))) for dd, l, _ in g)
+                if failed:
+                    fail_idle.append(a)
+            okf = bool(fail_idle) and all(any(s_[0] == "call" and s_[1] is snd[0] for s_ in d.sources(a[2][0], stop_at_calls=False)) for a in fail_idle)
+            r.check(okf, "Drop/failed-hand-off-parks-the-returned-state", snd[0].loc(), "when the waiting starter has gone the state returned by the failed send is parked as Idle",
+                    "after a failed hand-off the entry parked in the plane is not built from the state the failed send returned: the agent's stored state is dropped and an empty one takes its place")
         ns = ctx.saw(sa.fn(name="node_store", self_adt="in_memory_store::InMemoryPlanePersistence"))
         inuse = [a for a in aggregates(ns, "in_memory_store::NodeEntry", "InUse")]
         news = [c for c in ns.calls if c.name == "new" and "InMemoryNodePersistence" in c.defpath]
